@@ -7,6 +7,7 @@ import (
 	"time"
 
 	sdkmath "cosmossdk.io/math"
+	swaptypes "github.com/sunriselayer/sunrise/x/swap/types"
 
 	"verifharness/emit"
 )
@@ -17,9 +18,10 @@ import (
 // generators and the model did not anticipate.
 
 var (
-	tInt  = reflect.TypeOf(sdkmath.Int{})
-	tDec  = reflect.TypeOf(sdkmath.LegacyDec{})
-	tTime = reflect.TypeOf(time.Time{})
+	tInt   = reflect.TypeOf(sdkmath.Int{})
+	tDec   = reflect.TypeOf(sdkmath.LegacyDec{})
+	tTime  = reflect.TypeOf(time.Time{})
+	tRoute = reflect.TypeOf(swaptypes.Route{})
 )
 
 type pools struct {
@@ -36,6 +38,10 @@ func pow2(n uint) *big.Int { return new(big.Int).Lsh(big.NewInt(1), n) }
 
 // edgeBig returns an integer from the edge pool (negative, zero, small, around 2^63, 2^64, 2^128, up to 2^256-1).
 func edgeBig(r *emit.Rand) *big.Int {
+	if r.Chance(1, 5) {
+		g := aliasGrid([]int64{int64(r.Intn(4))})
+		return g[r.Intn(len(g))]
+	}
 	switch r.Intn(14) {
 	case 0:
 		return big.NewInt(0)
@@ -70,6 +76,10 @@ func edgeInt(r *emit.Rand) sdkmath.Int {
 }
 
 func edgeU64(r *emit.Rand) uint64 {
+	if r.Chance(1, 4) {
+		g := aliasGrid([]int64{int64(r.Intn(4))})
+		return wrapInt(g[r.Intn(len(g))], 64, false).Uint64()
+	}
 	switch r.Intn(10) {
 	case 0:
 		return 0
@@ -89,6 +99,10 @@ func edgeU64(r *emit.Rand) uint64 {
 }
 
 func edgeI64(r *emit.Rand) int64 {
+	if r.Chance(1, 4) {
+		g := aliasGrid([]int64{int64(r.Intn(4))})
+		return wrapInt(g[r.Intn(len(g))], 64, true).Int64()
+	}
 	switch r.Intn(10) {
 	case 0:
 		return 0
